@@ -485,6 +485,8 @@ def check_C09(chk):
     rs_ = RC.ReadSite(chk)
     if rs_.ok:
         RC.sample_loop_exits(chk, rs_, "C09.j")
+    import rules_io as RIO_
+    RIO_.readers_do_not_judge(chk, "C09.j")
     for r, n in (("C09.i", 2), ("C09.h", 4), ("C09.a", 2), ("C09.b", 7), ("C09.c", 3), ("C09.d", 10), ("C09.e", 3), ("C09.f", 2), ("C09.g", 2)):
         chk.floor(r, n)
 
